@@ -61,6 +61,9 @@ def main(argv):
     cfgs = [{"version": "v1", "community": "public"},
             {"version": "v2c", "community": "c" * 130},
             {"version": "v2c", "community": "", "session_kw": {"allow_bulk": False, "max_repetitions": 7}},
+            # credentials are octet strings on the wire: a community outside ASCII goes out as its UTF-8 octets, NUL included
+            {"version": "v2c", "community": "pub\u00e9lic\u20ac\x00x"},
+            {"version": "v3", "v3": {"user": "us\u00e9r\u20ac", "auth": ["md5", 0, b"authpassword".hex()], "priv": None, "engine_id": "80001f8880a1b2c3d4"}},
             {"version": "v3", "v3": {"user": "u0", "auth": None, "priv": None, "engine_id": "80001f8880a1b2c3d4"}},
             {"version": "v3", "v3": {"user": "userA", "auth": ["sha1", 0, b"authpassword".hex()], "priv": None, "engine_id": "80001f8880" + "ab" * 12}},
             {"version": "v3", "v3": {"user": "userD", "auth": ["md5", 1, "0f" * 16], "priv": ["des", 0, b"privpassword".hex()], "engine_id": "8000000001"},
